@@ -27,6 +27,8 @@ pub enum Op {
     IpVariants(u16),
     /// `registry.map_into_portable(type_params)`
     IpParams(u16),
+    /// `registry.map_into_portable(strings)`: strings pass through unchanged and touch nothing
+    IpStrs,
 }
 
 pub struct Env {
@@ -44,6 +46,7 @@ impl Env {
             Op::IpFields(i) => format!("map_into_portable(fields of {})", l(i)),
             Op::IpVariants(i) => format!("map_into_portable(variants of {})", l(i)),
             Op::IpParams(i) => format!("map_into_portable(type_params of {})", l(i)),
+            Op::IpStrs => "map_into_portable(strings)".to_string(),
         }
     }
     pub fn labels(&self, ops: &[Op]) -> Vec<String> {
@@ -71,6 +74,9 @@ pub fn alphabet(u: &[Member], core_only: bool) -> Vec<Op> {
                 a.push(Op::RegPair(*x, *y));
             }
         }
+    }
+    if !core_only {
+        a.push(Op::IpStrs);
     }
     for &i in &core {
         let t = u[i as usize].meta.type_info();
@@ -146,6 +152,17 @@ pub fn apply(env: &Env, reg: &mut Registry, op: &Op) -> OpResult {
                 if let Err(e) = cmp_type(&t, &p, &mut res.pairs) {
                     res.ip_error = Some(format!("map_into_portable(variants): {e}"));
                 }
+            }
+        }
+        Op::IpStrs => {
+            let input: Vec<&'static str> = vec!["plain", "  lead", "trail \t", "", "é✓", "a\nb", "r#raw", " "];
+            let before = format!("{reg:?}");
+            let out = reg.map_into_portable(input.clone());
+            if out.len() != input.len() || out.iter().zip(&input).any(|(a, b)| a.as_str() != *b) {
+                res.ip_error = Some(format!("map_into_portable(strings) changed the strings: {out:?}"));
+            }
+            if format!("{reg:?}") != before {
+                res.ip_error = Some("map_into_portable(strings) changed the registry".into());
             }
         }
         Op::IpParams(i) => {
